@@ -10,7 +10,8 @@ META = {
         "step's modification (a swallowed modification suppresses both the publish and the triggered handler) and steps at most one inner "
         "handler per step; R5 value items trigger on_event followed by on_set with the previous value taken at that moment, map items dispatch "
         "update/remove/clear to the matching callback; R6 the previous value is taken exactly once; R7 on_start is the first handler run and "
-        "on_stop the last."),
+        "on_stop the last. R10 (shared with C01.R3) a completed write runs the lane's handlers exactly when the lane asked for it (write-back table per WriteResult)."
+),
     "does_not_decide": "the semantics of arbitrary generated handler programs against a reference interpreter; that user lifecycles are acyclic",
 }
 
